@@ -27,16 +27,27 @@ func replay(cat *catalogue, path string) {
 	var f struct {
 		Key     string `json:"key"`
 		Witness struct {
-			History  string      `json:"history"`
-			Style    string      `json:"placement_style"`
-			Pl       []wavePlace `json:"placement"`
-			FillSeed uint64      `json:"fill_seed"`
-			Ops      []*op       `json:"ops"`
+			History  string       `json:"history"`
+			Style    string       `json:"placement_style"`
+			Pl       []wavePlace  `json:"placement"`
+			FillSeed uint64       `json:"fill_seed"`
+			Ops      []*op        `json:"ops"`
+			Scenario *relScenario `json:"scenario"`
 		} `json:"witness"`
 	}
 	if err := json.Unmarshal(b, &f); err != nil {
 		fmt.Println("cannot parse replay:", err)
 		os.Exit(2)
+	}
+	if f.Witness.Scenario != nil { // release layer
+		rec := &printRec{want: f.Key}
+		runRelease(rec, f.Witness.Scenario)
+		if rec.hit {
+			fmt.Printf("[C07] replay of %s: reproduced key %s\n", path, f.Key)
+			os.Exit(1)
+		}
+		fmt.Printf("[C07] replay of %s: key %s NOT reproduced (%d other deviations)\n", path, f.Key, rec.n)
+		os.Exit(0)
 	}
 	if len(f.Witness.Pl) == 0 {
 		fmt.Println("[C07] this replay is a canonical-battery finding; the battery runs on every invocation")
@@ -124,25 +135,45 @@ func main() {
 		runAndReport(c, cat, h)
 	})
 
+	// second layer: release of registers at wavefront end (release.go)
+	rels := canonicalRelease()
+	nRel := c.N(58, 1500)
+	relBase := c.Rand("release")
+	for i := 0; i < nRel; i++ {
+		rels = append(rels, genRelScenario(relBase.ForkN("r", i), i))
+	}
+	if os.Getenv("C07_SKIP_RELEASE") == "" {
+		vlib.Parallel(len(rels), 0, func(i int) {
+			if i == len(rels)-1 {
+				c.Sample(map[string]any{"release_scenario": rels[i]})
+			}
+			runRelease(c, rels[i])
+		})
+	}
+
 	minOps := int64(n) * int64(nOps) * 9 / 10
 	c.Finish(vlib.FinishOpts{
 		Rule: "case = canonical battery step, or history (2..6 co-resident wavefronts at dispatcher-like or hostile register-file offsets; " +
 			"dispatch + fill of every cell; then a seeded sequence of operand reads/writes through ReadOperand/WriteOperand/" +
 			"ReadOperandBytes/WriteOperandBytes/ReadReg/WriteReg and the typed accessors, operands taken from decoded encodings); " +
 			"non-trivial = distinct (backing, register kind, width) for which a read of that kind and width, verified against the model, " +
-			"returned cells last written by a verified history write of the same kind and width",
+			"returned cells last written by a verified history write of the same kind and width; " +
+			"release layer: case = scenario (1..3 generated kernels with WFSgprCount 8..102 / WIVgprCount 4..256 run to s_endpgm in a real compute unit, " +
+			"first-fit or last-fit placement, slots re-used by later work-groups), non-trivial = scenario in which a wavefront ended while another one was live and checked",
 		Assumptions: []string{
 			"operands stay inside the wavefront's allocation (granule-rounded WFSgprCount/WIVgprCount) and inside s0..s101 / v0..v255; SGPR tuples are aligned as the ISA requires",
 			"WriteOperand is used for operands of at most two dwords (a uint64 cannot carry more); byte writes pass exactly the operand's size",
 			"wavefront placement arithmetic (16-SGPR and 4-VGPR granules, byte offsets, round-robin SIMD) re-implements resource.CUResourceImpl, which is in an internal package",
 			"timing register files are observed raw through SimpleRegisterFile.Read with register s0/v0, lane 0 and the byte address as wave offset",
-			"the release of registers at wavefront end (SchedulerImpl.resetRegisterValue) is not reachable as an API and is not covered here",
+			"release layer: live wavefronts are observed through raw reads of cu.SRegFile/cu.VRegFile at tracer callbacks (instruction start/end) and through the sums they dump to memory; a window that is not cleared at release is counted, not judged",
 		},
 		MinNontrivial: 20,
 		MinCounters: map[string]int64{
 			"ops_total": minOps, "reads_verified": minOps / 2, "writes_verified": minOps / 3, "read_cells_after_history_write": minOps / 20,
 			"sweeps": int64(n), "battery_cases": 300, "emu_timing_agree_on_operand": minOps / 3, "wavefronts_placed": int64(2 * n),
 			"probe.outside_property_list.explicit_diagnostic": 10,
+			"release.scenarios": int64(len(rels)), "release.ends_with_live_neighbours": int64(8 * len(rels)), "release.live_windows_checked": int64(50 * len(rels)),
+			"release.dumps_judged": int64(5 * len(rels)), "release.slots_reused": int64(len(rels)), "release.wavefronts_ended_at_once": int64(4 * len(rels)),
 		},
 	})
 }
